@@ -934,13 +934,15 @@ def decimate(q, target):
     if y.ndim == 2:
         zf = zf[np.newaxis]
 
+    y_remainder = None
     while True:
-        remainder = y.shape[-1] % q
-
         y_filt, zf = signal.lfilter(b, a, y, zi=zf, axis=-1)
         if isinstance(y, PipelineData):
             y_filt = PipelineData(y_filt, y.fs, y.s0, y.channel, y.metadata)
+        if y_remainder is not None:
+            y_filt = concat((y_remainder, y_filt), axis=-1)
 
+        remainder = y_filt.shape[-1] % q
         if remainder != 0:
             y_remainder = y_filt[..., -remainder:]
             y_filt = y_filt[..., :-remainder]
@@ -955,10 +957,7 @@ def decimate(q, target):
         if result.shape[-1] > 0:
             target(result)
 
-        if y_remainder is not None:
-            y = concat((y_remainder, (yield)), axis=-1)
-        else:
-            y = (yield)
+        y = (yield)
 
 
 @coroutine
